@@ -185,6 +185,23 @@ def _one_program(n, edges, names, mode):
             viols += v2
         except Exception as exc:
             viols.append(V("C01:shared-arguments:raised:%s" % type(exc).__name__, "second program built from the same argument objects raised %r" % (exc,), tag=tag))
+    if mode == "api" and edges and not viols:
+        # the same Argument OBJECTS (add_command keeps an Argument it is given) instantiate two programs - a model parsed once and re-added
+        # to a second program: the second program must be fed by ITS OWN commands
+        from mpilot.arguments import Argument
+
+        spec = [dict((s_, Argument(s_, raw)) for s_, raw in G.slots_of(n, edges, i, names)) for i in range(n)]
+        try:
+            p1 = _program(n, edges, names, "api", spec)
+            p1.run()
+            p2 = _program(n, edges, names, "api", spec)
+            p2.run()
+            v2 = _check_final(n, edges, names, p2, "api", dict(tag, second_program_from_same_Argument_objects=True))
+            for v in v2:
+                v["key"] = v["key"].replace("C01:", "C01:shared-Argument-objects:", 1)
+            viols += v2
+        except Exception as exc:
+            viols.append(V("C01:shared-Argument-objects:raised:%s" % type(exc).__name__, "second program built from the same Argument objects raised %r" % (exc,), tag=tag))
     return viols, "ok order=" + order
 
 
